@@ -4,6 +4,7 @@ import (
 	"fmt"
 	"go/types"
 	"golang.org/x/tools/go/ssa"
+	"strings"
 
 	"vouchcheck/internal/core"
 )
@@ -412,4 +413,112 @@ func checkNestedMapWrites(p *core.Prog, r *core.Report, ds *core.Describer, rule
 		})
 	}
 	return n
+}
+
+// collectionMutations lists the instructions of fn that change the contents of a collection (map insert/delete,
+// slice element store, in-place sort/shuffle/reverse, copy into) whose collection operand traces back — through
+// phis, re-slicing, conversions and interface wrapping — to a value accepted by isSource.
+func collectionMutations(fn *ssa.Function, isSource func(v ssa.Value) bool) []ssa.Instruction {
+	var traces func(v ssa.Value, seen map[ssa.Value]bool) bool
+	traces = func(v ssa.Value, seen map[ssa.Value]bool) bool {
+		if v == nil || seen[v] {
+			return false
+		}
+		seen[v] = true
+		if isSource(v) {
+			return true
+		}
+		switch x := v.(type) {
+		case *ssa.Phi:
+			for _, e := range x.Edges {
+				if traces(e, seen) {
+					return true
+				}
+			}
+		case *ssa.ChangeType:
+			return traces(x.X, seen)
+		case *ssa.Convert:
+			return traces(x.X, seen)
+		case *ssa.Slice:
+			return traces(x.X, seen)
+		case *ssa.MakeInterface:
+			return traces(x.X, seen)
+		case *ssa.UnOp:
+			// a local variable holding the collection (captured by a closure): follow its stores
+			if a, ok := x.X.(*ssa.Alloc); ok && a.Referrers() != nil {
+				for _, ref := range *a.Referrers() {
+					if st, ok := ref.(*ssa.Store); ok && st.Addr == ssa.Value(a) && traces(st.Val, seen) {
+						return true
+					}
+				}
+			}
+		}
+		return false
+	}
+	tr := func(v ssa.Value) bool { return traces(v, map[ssa.Value]bool{}) }
+	var out []ssa.Instruction
+	core.EachInstr(fn, func(in ssa.Instruction) {
+		switch x := in.(type) {
+		case *ssa.MapUpdate:
+			if tr(x.Map) {
+				out = append(out, in)
+			}
+		case *ssa.Store:
+			if ia, ok := x.Addr.(*ssa.IndexAddr); ok {
+				if _, isSlice := ia.X.Type().Underlying().(*types.Slice); isSlice && tr(ia.X) {
+					out = append(out, in)
+				}
+			}
+		case *ssa.Call:
+			if b, ok := x.Call.Value.(*ssa.Builtin); ok {
+				switch b.Name() {
+				case "delete", "copy", "clear":
+					if len(x.Call.Args) > 0 && tr(x.Call.Args[0]) {
+						out = append(out, in)
+					}
+				}
+				return
+			}
+			callee := x.Call.StaticCallee()
+			if callee == nil || callee.Pkg == nil || len(x.Call.Args) == 0 {
+				return
+			}
+			pk := callee.Pkg.Pkg.Path()
+			inPlace := false
+			switch pk {
+			case "sort":
+				switch callee.Name() {
+				case "Slice", "SliceStable", "Sort", "Stable", "Ints", "Strings", "Float64s":
+					inPlace = true
+				}
+			case "slices":
+				n := callee.Name()
+				if strings.HasPrefix(n, "Sort") || n == "Reverse" {
+					inPlace = true
+				}
+			case "math/rand", "math/rand/v2":
+				inPlace = callee.Name() == "Shuffle"
+			}
+			if inPlace && tr(x.Call.Args[0]) {
+				out = append(out, in)
+			}
+		}
+	})
+	return out
+}
+
+// dutyGetterResult: v is the result of calling a field getter (return recv.field) of a type named Duty.
+func dutyGetterResult(v ssa.Value) (*ssa.Function, bool) {
+	c, ok := v.(*ssa.Call)
+	if !ok || c.Call.IsInvoke() {
+		return nil, false
+	}
+	g := c.Call.StaticCallee()
+	if g == nil || g.Signature.Recv() == nil || !isFieldGetter(g) {
+		return nil, false
+	}
+	if !strings.HasSuffix(typeName(g.Signature.Recv().Type()), ".Duty") {
+		return nil, false
+	}
+	return g, true
 }
